@@ -16,8 +16,10 @@ PATHS = {
 ALL_PATHS = [p for v in PATHS.values() for p in v]
 
 KINDS = ["vec", "dense", "hash", "btree", "defvec", "null", "f_vec", "f_dense", "f_hash", "f_btree",
-         "f_defvec", "f_null", "d_vec", "d_dense", "d_hash", "d_btree", "d_defvec", "d_null"]
-BASIC_KINDS = ["vec", "dense", "hash", "btree", "defvec", "null", "f_vec", "d_dense"]
+         "f_defvec", "f_null", "d_vec", "d_dense", "d_hash", "d_btree", "d_defvec", "d_null",
+         # plain-data components (no destructor: needs_drop::<T>() is false)
+         "p_vec", "p_dense", "p_hash", "p_btree", "p_defvec", "pf_hash"]
+BASIC_KINDS = ["vec", "dense", "hash", "btree", "defvec", "null", "f_vec", "d_dense", "p_hash", "p_dense", "p_vec"]
 REGS = ["register", "register_with", "setup_read", "setup_write", "dispatcher", "register_twice"]
 
 
